@@ -12,4 +12,4 @@ Separate Extraction
   Pixel.premultiply Pixel.blend_mask_px Pixel.blend_mask_clip_px Pixel.premul
   Surface.surface_op Surface.surface_spec_ok
   Raster.rast_idle Shader.new_linear_gradient Shader.new_radial_gradient Shader.new_two_circle_radial_gradient Shader.new_sweep_gradient
-  Target.dt_new Target.step_op Target.clip_bounds Target.top_clip_mask.
+  Target.dt_new Target.step_op Target.clip_bounds Target.top_clip_mask Target.probe_region Target.step_forced Target.dest_of.
